@@ -483,6 +483,9 @@ var c09callNearMisses = []string{
 	"call X(in = 1,)", "call X(a = 1,) # c", "# c\ncall X(a = 1,)", "call X(a = -1, b = 1.5, c = 1e+21, d = \"q\\\"\",)",
 	"call X(a = [[1]],)", "call X(a = [{\"k\": null}],)", "map call X(a = split [[1], [2]],)", "call\tX\n(\n)\n",
 	"call X(a = split.default,)", "map call X(a = split.default,)", "map call X(a = split [1].x,)", "call X(*  = self,)",
+	// bytes >= 0x80 outside string literals: Unicode white space, comments that stop before invalid UTF-8 / U+FFFD
+	"call\xc2\xa0X(a\xe3\x80\x80=\xe2\x80\xa81,\xc2\x85)", "call X(a\xe2\x80\x8b = 1,)", "call X(a = 1,) # caf\xc3\xa9", "call X(a = 1,) #\xff", "#\xef\xbf\xbd\ncall X(a = 1,)",
+	"# \xc3\xa9\ncall X(a = 1,\xe1\x9a\x80)", "call X(a = 1\xff,)", "call X\xc3\xa9(a = 1,)", "call X(a = 1,) # x\xe2\x80",
 }
 
 func c09Calls(c *Ctx) {
